@@ -205,6 +205,7 @@ def run(ctx):
                           key=('D2', fi.qual, 'remove-unknown'), site=ctx.site(fi, x))
 
     common.parse_errors_propagate(ctx, 'D2')
+    common.from_exception_total(ctx, esc, 'D2')
     # ---------------------------------------------------------------- D3
     ts = common.typestate(ctx, esc)
     S = ts.S
